@@ -9,6 +9,7 @@ import AdaVerif.Lemmas.ParseAgg
 import AdaVerif.Lemmas.ParseBase
 import AdaVerif.Lemmas.ParseAggBase
 import AdaVerif.Lemmas.ParseValid
+import AdaVerif.Lemmas.Origin
 import AdaVerif.Props.C10
 /-
 C04 — `ada::url` and `ada::url_aggregator` are observationally identical.
@@ -405,6 +406,14 @@ open AdaVerif.Lemmas.PAB in
 theorem parsed_base_ok (idna : Idna) (bi : Bytes) (b : Url) (h : parse idna bi none = some b) : BaseRec (recOf b) :=
   baseRec_of b (AdaVerif.Lemmas.parse_inv idna bi none b (by intro x hx; cases hx) h)
     (AdaVerif.Lemmas.PV.parse_noSlash idna bi b h) (parse_ch idna bi b h)
+
+open AdaVerif.Model.ParseSpecial AdaVerif.Model.ParseAgg AdaVerif.Lemmas.PAB in
+/-- **the origin getter agrees**: `url_aggregator::get_origin()` (through `get_protocol()`, `get_host()`, `get_pathname()` and,
+    for `blob:`, its own parser) on the laid-out object is `url::get_origin()` (fields, and `ada::url`'s parser) -/
+theorem origin_agrees (idna : Idna) (r : AdaVerif.Model.UrlRec.Rec) (hb : BaseRec r) (hid : ∀ d, AdaVerif.Lemmas.HP.IdnaAt idna d)
+    (hclean : r.scheme = bBlob → AdaVerif.Lemmas.HS.bracketClean (schemeSpecial r.path) false (hostStart r.path) = true) :
+    getOriginA idna (layout (toL r)) = getOriginR idna r :=
+  AdaVerif.Lemmas.OR.getOriginA_eq idna r hb hid hclean
 
 /-- worked instances (kernel-evaluated): credentials over two '@', a port, dot segments, query and fragment; a file URL
     with a drive letter; a path-only URL of a scheme that is not special with the "/." guard; a failure -/
